@@ -299,6 +299,11 @@ func runC13(c *Ctx) {
 		}
 	}
 	c.reportFamily(p, mm, func(m Mismatch) bool {
+		// a value that is the expected one with the bytes of every element reversed: the
+		// byte order of the record's own definition was not applied
+		if str(m.Rec["what"]) == "field" && byteSwapped(m.Rec["expected"], m.Rec["observed"]) {
+			return true
+		}
 		if m.Call.Note == "independence" {
 			// the same records without local type A decode as the Contract says: A's presence changed the others
 			return !indepBad[indep[m.Call.ID]]
@@ -333,4 +338,43 @@ func min(a, b int) int {
 		return a
 	}
 	return b
+}
+
+// byteSwapped: observed equals expected with each 2-, 4- or 8-byte element reversed (and differs from it).
+func byteSwapped(e, o interface{}) bool {
+	ea, ok1 := e.([]interface{})
+	oa, ok2 := o.([]interface{})
+	if !ok1 || !ok2 || len(ea) != len(oa) || len(ea) < 2 {
+		return false
+	}
+	same := true
+	for i := range ea {
+		if num(ea[i]) != num(oa[i]) {
+			same = false
+		}
+		if num(ea[i]) < 0 {
+			return false
+		}
+	}
+	if same {
+		return false
+	}
+	for _, w := range []int{2, 4, 8} {
+		if len(ea)%w != 0 {
+			continue
+		}
+		all := true
+		for i := 0; i < len(ea) && all; i += w {
+			for j := 0; j < w; j++ {
+				if num(ea[i+j]) != num(oa[i+w-1-j]) {
+					all = false
+					break
+				}
+			}
+		}
+		if all {
+			return true
+		}
+	}
+	return false
 }
